@@ -34,6 +34,16 @@ import (
 func init() {
 	generators["C08"] = genC08
 	opExec["cfg"] = execCfg
+	opExec["req"] = func(a []string) string {
+		if len(a) != 2 {
+			return "bad-op"
+		}
+		n, err := strconv.Atoi(a[1])
+		if err != nil {
+			return "bad-op"
+		}
+		return app.VerifCfgFromRequest(a[0], n)
+	}
 }
 
 func execCfg(a []string) string {
@@ -48,10 +58,11 @@ func execCfg(a []string) string {
 }
 
 type fuzzRes struct {
-	code  int
-	body  string
-	panic string
-	spin  bool
+	code     int
+	fullBody string
+	body     string
+	panic    string
+	spin     bool
 }
 
 // serveGuarded runs a handler under recover and a deadline. A panic inside chi's Recoverer shows as 500 with an empty body.
@@ -68,11 +79,12 @@ func serveGuarded(h http.Handler, req *http.Request) fuzzRes {
 			}
 		}()
 		h.ServeHTTP(rec, req)
-		b := rec.Body.String()
+		full := rec.Body.String()
+		b := full
 		if len(b) > 200 {
 			b = b[:200]
 		}
-		done <- fuzzRes{code: rec.Code, body: b}
+		done <- fuzzRes{code: rec.Code, body: b, fullBody: full}
 	}()
 	select {
 	case r := <-done:
@@ -159,6 +171,28 @@ func genC08(c *Ctx) {
 		"/livesim2/statuscode_[{cycle:1152921504606846976,rsq:0,code:404}]/testpic_2s/V300/49.m4s?nowMS=100300",
 	} {
 		try(s.LiveRouter, "livesim", "GET", u, "", nil)
+	}
+	// parameters that move the instant or the stream's time span x parameters that switch a feature on x kinds of request
+	shifters := []string{"timeoffset_-200", "timeoffset_-99.5", "timeoffset_1000", "start_101", "start_100", "startrel_10", "startrel_-10", "stop_50", "stop_0", "stoprel_-1000", "stoprel_0",
+		"start_-10", "timeoffset_-100.3", "start_100/timeoffset_-0.5"}
+	features := []string{"", "periods_60", "periods_60/continuous_1", "segtimeline_1", "segtimelinenr_1", "timesubsstpp_en", "scte35_2", "patch_60/segtimeline_1", "statuscode_[{cycle:30,rsq:0,code:404}]",
+		"chunkdur_0.5/ato_1", "ato_1.5", "tsbd_0", "tsbd_172800", "snr_7", "mup_2/spd_4", "traffic_u3d2", "eccp_cenc", "periods_60/segtimeline_1", "periods_1800/segtimelinenr_1", "ato_inf"}
+	kinds := []string{"testpic_2s/Manifest.mpd", "testpic_2s/V300/49.m4s", "testpic_2s/A48/49.m4s", "testpic_2s/V300/98000.m4s", "testpic_2s/V300/init.mp4", "testpic_2s/thumbs/49.jpg", "gen_irreg/Manifest.mpd",
+		"timesubsstpp_en/testpic_2s/timestpp-en/49.m4s"}
+	for _, sh := range shifters {
+		for _, ft := range features {
+			for _, kd := range kinds {
+				if !c.Thorough() && r.Intn(4) != 0 && sh != "timeoffset_-200" {
+					continue
+				}
+				u := "/livesim2/" + sh + "/"
+				if ft != "" {
+					u += ft + "/"
+				}
+				u += kd + "?nowMS=100000"
+				try(s.LiveRouter, "livesim", "GET", u, "", nil)
+			}
+		}
 	}
 	// single bad values for every key
 	for _, k := range urlKeys {
@@ -299,6 +333,21 @@ func genC08(c *Ctx) {
 		{"startrel_9223372036854775807", "a.mpd"}, {"stoprel_-9223372036854775808", "a.mpd"}} {
 		for _, now := range []int{100300, 0, -1, 68719476736000, 68719476736001, 1790000000250} {
 			emitCfg(ps, now)
+		}
+	}
+	// cfgFromRequest: the instant after timeoffset against the start time
+	for _, to := range []string{"", "timeoffset_0", "timeoffset_-200", "timeoffset_200", "timeoffset_-0.5", "timeoffset_1.5", "timeoffset_-100", "timeoffset_-100.5", "timeoffset_x", "timeoffset_inf", "timeoffset_68719476736", "timeoffset_-68719476736"} {
+		for _, st := range []string{"", "start_0", "start_100", "start_101", "start_-5", "startrel_0", "startrel_5", "startrel_-5", "start_68719476736"} {
+			for _, now := range []int{100000, 100499, 0, 99999, 68719476736000} {
+				var ps []string
+				for _, x := range []string{to, st} {
+					if x != "" {
+						ps = append(ps, x)
+					}
+				}
+				ps = append(ps, "testpic_2s/Manifest.mpd")
+				c.Emit(fmt.Sprintf("req /livesim2/%s %d", strings.Join(ps, "/"), now), len(ps) > 1)
+			}
 		}
 	}
 	// random combinations
